@@ -318,6 +318,13 @@ class Ctx:
                 mergeprog.regenerate()
             except Exception as e:  # `merge` is no longer in a form the effect language expresses
                 self.broken_obligation(f'translator (merge effect program): {type(e).__name__}: {e}')
+        if 'AeicModel.Generated.AddProg' in deps:
+            try:
+                from . import addprog
+
+                addprog.regenerate()
+            except Exception as e:  # `add` is no longer in a form the event language expresses
+                self.broken_obligation(f'translator (add event program): {type(e).__name__}: {e}')
         if 'AeicModel.Generated.Kernels' in deps:
             try:
                 from . import pykern
